@@ -351,13 +351,14 @@ def window_excess(case, res, ti):
     s = case['sched']; simc = case['sim']; yv = res['yearvec']
     if case['delivery'] == 'campaign':
         pts = [int(np.argmin(np.abs(np.array(yv) - y))) for y in s['years']]
-        return None if ti in pts else ('off-campaign', min(abs(ti - p) for p in pts))
+        return None if ti in pts else ('off-campaign', 1 if min(abs(ti - p) for p in pts) <= 1 else '2+')
     sy = s['years'][0] if 'years' in s else s.get('start_year', simc['start'])
     ey = s['years'][-1] if 'years' in s else s.get('end_year', simc['start'] + simc['dur'])
     inside = [i for i, y in enumerate(yv) if sy - 1e-9 <= y < ey + 1 - 1e-9]
     if ti in inside: return None
     if not inside: return ('empty-window', 0)
-    return ('before-start', inside[0] - ti) if ti < inside[0] else ('after-end', ti - inside[-1])
+    k = inside[0] - ti if ti < inside[0] else ti - inside[-1]
+    return ('before-start' if ti < inside[0] else 'after-end', k if k <= 1 else '2+')
 
 
 def oracle_case(case, res=None):
@@ -523,6 +524,10 @@ def search(ctx):
     n = ctx.budget(40, 320)
     cases = [minimal_window_case(),
              dict(minimal_window_case(), sched=dict(years=[2005, 2006, 2007, 2008], prob=[0.1, 0.2, 0.4, 0.8], annual_prob=True))]
+    for kf in ctx.known:            # stored witnesses of the known findings are re-run on every run
+        rp = kf.get('replay') or {}
+        if isinstance(rp.get('case'), dict) and rp['case'] not in cases:
+            cases.append(rp['case'])
     kinds = ['vx', 'screen', 'treat', 'vx', 'triage', 'treat', 'vx', 'screen']
     for k in range(n):
         c = I.gen_case(ctx.rng, kinds[k % len(kinds)])
